@@ -416,7 +416,7 @@ PROPS["C04"] = pbt(
     level_note="libFuzzer campaigns are only approximately reproducible from a seed; the saved artifact is the reproducible unit. Timeouts count only if reproducible at 10x the limit.",
     quick={"cases": 48000, "fuzz_runs": 25000, "fuzz_jobs": 4},
     thorough={"cases": 3000000, "fuzz_runs": 600000, "fuzz_jobs": 8},
-    floors={"parsed_with_entries": 0.40, "rejected_with_parse_error": 0.05, "merged_pair": 0.15, "edited": 0.30},
+    floors={"parsed_with_entries": 0.40, "rejected_with_parse_error": 0.05, "merged_pair": 0.15, "edited": 0.25},
 )
 
 PROPS["C19"] = pbt(
